@@ -48,6 +48,70 @@ use std::panic::{catch_unwind, AssertUnwindSafe};
 
 pub type Enc = BrotliEncoderStateStruct<StandardAlloc>;
 
+/// An allocator that honours the `Allocator` contract but hands out cells LONGER than requested
+/// (by 0..=maxk elements, as alloc_no_stdlib's StackAllocator may) and counts its traffic;
+/// `maxk = 0` is a plain tracking allocator.
+pub struct OverAlloc { pub n: usize, pub live: isize, pub maxk: usize }
+impl<T: Clone + Default> alloc_no_stdlib::Allocator<T> for OverAlloc {
+    type AllocatedMemory = alloc_stdlib::heap_alloc::WrapBox<T>;
+    fn alloc_cell(&mut self, len: usize) -> Self::AllocatedMemory {
+        if len == 0 { return Self::AllocatedMemory::default(); }
+        self.n += 1;
+        self.live += 1;
+        let k = if self.maxk == 0 { 0 } else { (self.n * 7 + 3) % (self.maxk + 1) };
+        alloc_stdlib::heap_alloc::WrapBox::<T>::from(vec![T::default(); len + k])
+    }
+    fn free_cell(&mut self, data: Self::AllocatedMemory) {
+        use alloc_no_stdlib::SliceWrapper;
+        if !data.slice().is_empty() { self.live -= 1; }
+    }
+}
+impl brotli::enc::BrotliAlloc for OverAlloc {}
+
+/// run a request list on an encoder with allocator `a` (ample output, nothing recorded);
+/// Err = (signature tail, description)
+pub fn run_reqs_alloc<A: brotli::enc::BrotliAlloc>(a: A, cfg: &Cfg, reqs: &[Req]) -> Result<Vec<u8>, (String, String)> {
+    let total_in: usize = reqs.iter().filter(|r| r.op != OP_METADATA).map(|r| r.data.len()).sum();
+    let r = catch_unwind(AssertUnwindSafe(|| {
+        let mut e = BrotliEncoderStateStruct::new(a);
+        for (id, v) in &cfg.sets { if let Some(p) = param_of(*id) { e.set_parameter(p, *v); } }
+        if cfg.hint_exact { e.set_parameter(BrotliEncoderParameter::BROTLI_PARAM_SIZE_HINT, total_in as u32); }
+        let mut out: Vec<u8> = vec![];
+        let mut buf = vec![0u8; 1 << 20];
+        for rq in reqs {
+            let mut pos = 0usize;
+            let mut calls = 0usize;
+            loop {
+                calls += 1;
+                if calls > 100000 { return Err(("livelock".to_string(), "request not complete after 100000 calls".to_string())); }
+                let mut avail_in = rq.data.len() - pos;
+                let mut in_off = 0usize;
+                let mut avail_out = buf.len();
+                let mut out_off = 0usize;
+                let mut total: Option<usize> = None;
+                let mut cb = |_: &mut brotli::interface::PredictionModeContextMap<brotli::InputReferenceMut>, _: &mut [brotli::interface::StaticCommand], _: brotli::interface::InputPair, _: &mut A| ();
+                let ret = e.compress_stream(op_of(rq.op), &mut avail_in, &rq.data[pos..], &mut in_off, &mut avail_out, &mut buf, &mut out_off, &mut total, &mut cb);
+                if !ret { return Err(("refused".to_string(), format!("op {} refused", rq.op))); }
+                pos += in_off;
+                out.extend_from_slice(&buf[..out_off]);
+                let done = pos == rq.data.len() && e.available_out_ == 0 && match rq.op {
+                    OP_PROCESS => true,
+                    OP_FLUSH => e.stream_state_ as i32 == 0,
+                    OP_FINISH => e.is_finished(),
+                    _ => e.remaining_metadata_bytes_ == u32::MAX && e.stream_state_ as i32 == 0,
+                };
+                if done { break; }
+            }
+        }
+        Ok(out)
+    }));
+    let _ = evhook::take();
+    match r {
+        Ok(x) => x,
+        Err(_) => { let p = last_panic(); Err((format!("panic:{}", p.split(' ').next().unwrap_or("?")), p)) }
+    }
+}
+
 // ---------------------------------------------------------------------------------------------
 // hook events (payload-encoder invocations inside one call)
 // ---------------------------------------------------------------------------------------------
@@ -739,6 +803,41 @@ pub fn gen_reqs(rng: &mut Rng, total: usize, style: u64, with_flush: bool, with_
     }
     reqs
 }
+/// Input class "planted": segments separated by FLUSH (or left to the automatic meta-block
+/// split): incompressible noise with a few short copies at a FRESH distance `d` planted in it
+/// (the block is still stored raw, but its commands have touched the distance cache), followed by
+/// a segment that repeats at exactly distance `d` (so the next meta-block wants to code `d` as
+/// "last distance").  Catches a missing distance-cache rollback on the raw-store paths.
+pub fn gen_planted_reqs(rng: &mut Rng) -> Vec<Req> {
+    let mut stream: Vec<u8> = vec![];
+    let mut reqs: Vec<Req> = vec![];
+    let nseg = rng.range(1, 3);
+    for _ in 0..nseg {
+        let d = match rng.below(6) { 0 => 4usize, 1 => 11, 2 => 15, 3 => 16, 4 => rng.range(5, 64) as usize, _ => rng.range(17, 600) as usize };
+        let m = rng.range(5, 9) as usize;
+        let la = rng.range((120 * m).max(d + 40) as u64, 5000) as usize;
+        let start = stream.len();
+        for _ in 0..la { stream.push(rng.next() as u8); }
+        let ncopies = if rng.chance(1, 3) { rng.range(2, 3) as usize } else { 1 };
+        for _ in 0..ncopies {
+            let p = start + rng.range((d + 8) as u64, (la - m - 8) as u64) as usize;
+            for j in 0..m { stream[p + j] = stream[p + j - d]; }
+        }
+        let seg_a = stream[start..].to_vec();
+        let lb = rng.range(40, 1500) as usize;
+        let bstart = stream.len();
+        for i in 0..lb { let v = stream[bstart + i - d]; stream.push(v); }
+        let seg_b = stream[bstart..].to_vec();
+        match rng.below(4) {
+            0 => { reqs.push(Req { op: OP_FLUSH, data: seg_a }); reqs.push(Req { op: OP_PROCESS, data: seg_b }); }
+            1 => { reqs.push(Req { op: OP_PROCESS, data: seg_a }); reqs.push(Req { op: OP_FLUSH, data: vec![] }); reqs.push(Req { op: OP_FLUSH, data: seg_b }); }
+            2 => { reqs.push(Req { op: OP_FLUSH, data: seg_a }); reqs.push(Req { op: OP_FLUSH, data: seg_b }); }
+            _ => { let mut ab = seg_a; ab.extend_from_slice(&seg_b); reqs.push(Req { op: OP_PROCESS, data: ab }); }
+        }
+    }
+    reqs.push(Req { op: OP_FINISH, data: vec![] });
+    reqs
+}
 fn max_input_for(cfg: &Cfg, rng: &mut Rng, thorough: bool) -> usize {
     if cfg.q >= 10 { return 6000; }
     let base = if thorough { 200_000 } else { 66_000 };
@@ -1059,7 +1158,19 @@ fn stage_plans(args: &Args, n: usize, tag: u64, c01: bool, c04: bool) -> Vec<Tas
         let style = rng.below(8);
         let wf = c04 || rng.chance(1, 3);
         let wm = (c04 && rng.chance(2, 3)) || rng.chance(1, 10);
-        let reqs = gen_reqs(&mut rng, total, style, wf, wm, true);
+        let mut cfg = cfg;
+        let mut reqs = gen_reqs(&mut rng, total, style, wf, wm, true);
+        let mut total = total;
+        if i % 7 == 3 {
+            // the "planted" class needs the match finders: quality 2..9
+            let q = rng.range(2, 9) as u32;
+            cfg.sets.retain(|s| s.0 != 1);
+            cfg.sets.push((1, q));
+            cfg.q = q as i32;
+            reqs = gen_planted_reqs(&mut rng);
+            total = reqs.iter().map(|r| r.data.len()).sum();
+            rep.count("input_class_planted");
+        }
         let sched = if rng.chance(1, 4) { OutSched::ample() } else { gen_sched(&mut rng) };
         // tiny capacities on long inputs cost a call per byte: cap the product
         let sched = if total > 20000 && sched.caps.iter().all(|c| *c < 64) { OutSched { caps: vec![4096, 1, 70000], ..sched } } else { sched };
@@ -1111,6 +1222,18 @@ fn stage_pairs(args: &Args, n: usize) -> Vec<TaskOut> {
         rep.nontrivial += 1;
         let s = snap(&ref_run.sess.enc);
         rep.count(&format!("q{}", s.q));
+        // allocator independence: the same request list under a tracking allocator and under an
+        // over-allocating one (cells up to 31 elements longer than requested)
+        for (name, maxk) in [("tracking", 0usize), ("over-allocating", 31usize)] {
+            rep.count(&format!("pairs.alloc.{}", name));
+            match run_reqs_alloc(OverAlloc { n: 0, live: 0, maxk }, &cfg, &reqs) {
+                Err((sig, what)) => { rep.violation(&format!("stream:c05:alloc-{}", sig), &format!("{} allocator, quality {} lgwin {}: {}", name, s.q, s.w, what), case_json(&cfg, &ref_run.sess, &format!("allocator {} (alloc_cell(len) returns len + (7n+3) mod {} elements)", name, maxk + 1))); break; }
+                Ok(bytes) => if bytes != ref_run.sess.delivered {
+                    rep.violation("stream:c05:alloc-bytes", &format!("{} allocator, quality {} lgwin {}: {} bytes vs {} with StandardAlloc, first diff at {}", name, s.q, s.w, bytes.len(), ref_run.sess.delivered.len(), dec::first_diff(&bytes, &ref_run.sess.delivered)), case_json(&cfg, &ref_run.sess, &format!("allocator {}", name)));
+                    break;
+                }
+            }
+        }
         if !chunk_pair {
             for v in 0..3 {
                 let sched = match v { 0 => OutSched { caps: vec![1], take_every: 0, take_sizes: vec![0] }, 1 => OutSched { caps: vec![0], take_every: 1, take_sizes: vec![0, 1, 16] }, _ => gen_sched(&mut rng) };
@@ -1166,6 +1289,41 @@ fn stage_pairs(args: &Args, n: usize) -> Vec<TaskOut> {
             }
         }
         TaskOut { lines, rep }
+    })
+}
+
+/// single calls larger than the 128 KiB two-pass block at quality 0/1 (and a few others), StandardAlloc
+/// vs over-allocating allocator, ample output
+fn stage_alloc_big(args: &Args) -> Vec<TaskOut> {
+    let seed = args.seed;
+    let mut grid: Vec<(u32, u32, usize, bool)> = vec![];
+    for q in [0u32, 1, 1, 2, 5, 9] { for w in [18u32, 20, 22] { for n in [131073usize, 140000, 200000, 300001] { for cat in [false, true] { if q <= 1 || (n == 140000 && !cat) { grid.push((q, w, n, cat)); } } } } }
+    let n = grid.len();
+    let grid = std::sync::Arc::new(grid);
+    par_tasks(n, move |i| {
+        let (q, w, len, cat) = grid[i];
+        let mut rng = Rng::new(seed ^ 0xA110C ^ ((i as u64) << 20));
+        let mut rep = Report::default();
+        set_task(format!("alloc-big task {} q{} lgwin{} len{} catable{}", i, q, w, len, cat));
+        let cfg = simple_cfg(q, w, cat, false, 0);
+        let style = *rng.pick(&[2u64, 5, 1, 7]);
+        let data = gen_bytes(&mut rng, len, style);
+        let reqs = if i % 2 == 0 { vec![Req { op: OP_FINISH, data }] } else { vec![Req { op: OP_PROCESS, data }, Req { op: OP_FINISH, data: vec![] }] };
+        rep.evaluations += 1;
+        rep.count("alloc_big.cases");
+        let a = run_reqs_alloc(StandardAlloc::default(), &cfg, &reqs);
+        let b = run_reqs_alloc(OverAlloc { n: 0, live: 0, maxk: 31 }, &cfg, &reqs);
+        let sess = Session::new();
+        match (a, b) {
+            (Ok(x), Ok(y)) => {
+                rep.nontrivial += 1;
+                if x != y { rep.violation("stream:c05:alloc-bytes", &format!("single call of {} bytes at quality {} lgwin {}: {} bytes with StandardAlloc, {} with the over-allocating allocator, first diff at {}", len, q, w, x.len(), y.len(), dec::first_diff(&x, &y)), case_json(&cfg, &sess, &format!("style {} len {}", style, len))); }
+                else if let Err(e) = dec::decode_both(&x, false, &reqs[0].data) { rep.violation("stream:roundtrip", &e, case_json(&cfg, &sess, &format!("alloc-big style {} len {}", style, len))); }
+            }
+            (Err((sig, what)), _) => rep.violation(&format!("stream:{}", sig), &format!("StandardAlloc: {}", what), case_json(&cfg, &sess, "")),
+            (_, Err((sig, what))) => rep.violation(&format!("stream:c05:alloc-{}", sig), &format!("over-allocating allocator, quality {} lgwin {} len {}: {}", q, w, len, what), case_json(&cfg, &sess, "")),
+        }
+        TaskOut { lines: vec![], rep }
     })
 }
 
@@ -1376,7 +1534,7 @@ pub fn run_cmd(args: &Args) {
     let scale = if thorough { 12 } else { 1 };
     if which == "c01" || which == "all" { outs.extend(stage_plans(args, 9000 * scale, 0xC01, true, false)); }
     if which == "c04" || which == "all" { outs.extend(stage_plans(args, 6000 * scale, 0xC04, true, true)); }
-    if which == "c05" || which == "all" { outs.extend(stage_pairs(args, 3500 * scale)); }
+    if which == "c05" || which == "all" { outs.extend(stage_pairs(args, 3500 * scale)); outs.extend(stage_alloc_big(args)); }
     if which == "c20" || which == "all" {
         outs.extend(stage_exhaustive(args));
         outs.extend(stage_random_contract(args, 3000 * scale));
